@@ -4,6 +4,7 @@
 # Prints the check's output; exit status is the check's. The worktree is removed afterwards.
 set -u
 CHANGE="$1"; shift
+case "$CHANGE" in revert:*) ;; /*) ;; *) CHANGE="$(pwd)/$CHANGE" ;; esac
 N=$$
 WT=/tmp/vsim-mut-$N
 SCR=/tmp/vsim-mut-$N-out
